@@ -18,3 +18,4 @@ _reg("C10")
 _reg("C13")
 _reg("C11")
 _reg("C12")
+_reg("C38")
